@@ -115,6 +115,7 @@ type World struct {
 	SolverTime                        time.Duration
 	Samples                           []QuerySample
 	Timeout                           int // ms
+	Retried                           int // undecided queries handed to another solver
 }
 
 type class struct {
@@ -438,6 +439,24 @@ func (w *World) query(kind, claim, script string, nvars int) string {
 			r = fmt.Sprintf("error: solvers disagree: %s=%s %s=%s", w.z3.name, r, w.z3b.name, r2)
 		}
 	}
+	if r != "sat" && r != "unsat" && !strings.HasPrefix(r, "error: solvers disagree") {
+		// nlsat's running time is erratic (the same script: 1 s on one machine, > 60 s on another): an undecided
+		// query gets a second opinion from the other solvers before the run is declared inconclusive
+		for _, alt := range []string{"z3-new", "cvc5", "z3"} {
+			if alt == w.z3.name {
+				continue
+			}
+			if _, err := exec.LookPath(alt); err != nil {
+				continue
+			}
+			r2 := oneShot(alt, w.Timeout, full)
+			w.Retried++
+			if r2 == "sat" || r2 == "unsat" {
+				r = r2
+				break
+			}
+		}
+	}
 	dt := time.Since(t0)
 	w.SolverTime += dt
 	w.Queries++
@@ -572,6 +591,41 @@ func (w *World) VarNames() []string {
 func (w *World) NumTerms() int { return len(w.terms) }
 
 // solver processes are pooled across worlds (process start-up, not solving, dominates small queries);
+// oneShot runs one script on a fresh process of another solver (retry of an undecided query)
+func oneShot(bin string, timeoutMs int, script string) string {
+	argv := []string{bin, "-in", fmt.Sprintf("-t:%d", timeoutMs)}
+	if strings.Contains(bin, "cvc5") {
+		argv = []string{bin, "--lang", "smt2", fmt.Sprintf("--tlimit=%d", timeoutMs)}
+	}
+	cmd := exec.Command(argv[0], argv[1:]...)
+	cmd.Stdin = strings.NewReader(script + "\n(check-sat)\n")
+	done := make(chan string, 1)
+	go func() {
+		out, _ := cmd.Output()
+		verdict := ""
+		for _, line := range strings.Split(string(out), "\n") {
+			line = strings.TrimSpace(line)
+			if strings.HasPrefix(line, "(error") {
+				verdict = "error: " + line
+				break
+			}
+			if verdict == "" && (line == "sat" || line == "unsat" || line == "unknown") {
+				verdict = line
+			}
+		}
+		done <- verdict
+	}()
+	select {
+	case v := <-done:
+		return v
+	case <-time.After(time.Duration(timeoutMs)*time.Millisecond + 15*time.Second):
+		if cmd.Process != nil {
+			cmd.Process.Kill()
+		}
+		return "timeout"
+	}
+}
+
 // every query starts with (reset), so no state is shared between worlds.
 var poolMu sync.Mutex
 var pool = map[int][]*solver{}
